@@ -326,7 +326,7 @@ impl Scenario for C08 {
         let mut sm = rng.fork("seams");
         let opts = Opts::from_index(*wl.pick(&[0u8, 7, 7, 2, 5]));
         for k in 0..4 {
-            let n = wl.urange(1, 6);
+            let n = if ctx.run % 64 == 3 && k == 1 { wl.urange(20, 60) } else { wl.urange(1, 6) };
             let mut msgs = Vec::new();
             for _ in 0..n {
                 msgs.push(HexBytes(self_delimiting(&mut wl, &sw, opts, ctx.obs)));
